@@ -12,7 +12,7 @@ from .. import core, girx, apigen, objgen
 from ..scan import GIR_HEAD
 
 DEP_GIR = GIR_HEAD + '''<namespace name="Dep" version="1.0" c:identifier-prefixes="Dep" c:symbol-prefixes="dep">
-<record name="Thing" c:type="DepThing"><field name="x" writable="1"><type name="gint" c:type="gint"/></field></record>
+<record name="Thing" c:type="DepThing" c:symbol-prefix="thing"><field name="x" writable="1"><type name="gint" c:type="gint"/></field></record>
 <enumeration name="Kind" c:type="DepKind"><member name="a" value="0" c:identifier="DEP_KIND_A"/></enumeration>
 <function name="do_it" c:identifier="dep_do_it"><return-value transfer-ownership="none"><type name="none" c:type="void"/></return-value></function>
 </namespace></repository>
@@ -189,6 +189,13 @@ def gen_decls(rng, cfg):
         if rng.random() < 0.5:
             lines.append(apigen.render_function(nm, 'void', [('gint', 'x')]))
             decls.append({'c': nm, 'class': 'function', 'shape': shape, 'ret': 'void', 'params': [('gint', 'x')], 'type': None})
+    if 'Dep-1.0' in cfg['includes'] and 'foo' in sp and 'Dep' not in ip:
+        # functions of THIS namespace whose first parameter is a type of the included one, with and without that type's
+        # symbol prefix in their name: they stay functions of this namespace (a method only of a type of the same namespace)
+        lines.append('typedef struct _DepThing DepThing;')
+        for nm in rng.sample(['foo_thing_frob', 'foo_thing_new_child', 'foo_attach_thing', 'foo_things_count'], rng.choice([1, 2, 3])):
+            lines.append(apigen.render_function(nm, 'void', [('DepThing *', 'thing'), ('gint', 'level')]))
+            decls.append({'c': nm, 'class': 'function', 'shape': 'foreign-first-param', 'ret': 'void', 'params': [('DepThing *', 'thing'), ('gint', 'level')], 'type': None})
     if 'Dep-1.0' in cfg['includes'] and rng.random() < 0.7:
         lines.append(apigen.render_function('dep_extra_call', 'void', [('gint', 'x')]))
         decls.append({'c': 'dep_extra_call', 'class': 'function', 'shape': 'dep-prefixed', 'ret': 'void', 'params': [('gint', 'x')], 'type': None})
